@@ -110,6 +110,13 @@ CHECKS = {
         note="No big-endian host to run natively: the BE configuration rests on the interpreter core validated on x86-64; counterexamples are reported as interpreter-only unless the forced -DBP_BIG_ENDIAN x86 build can reproduce them (unsigned, prefix-free messages; all -O output).",
         design="6/C06", engine="llsym",
     ),
+    "C19": dict(
+        category="translation_validation",
+        technique="symbolic interpretation of the generated Go + lib/go/bitproto.go by an own Go-source interpreter (z3 BV): == reference (== Python); helper terms Go == Python on their whole domain",
+        text="There is no Go toolchain, so the generated Go standard-mode output and the real Go runtime are executed from source by a Go-subset interpreter with z3 data: Encode() == specified bytes (== Python, C01), Decode() == values, Size() == ceil(N/8), struct fields hold their leaves, for all values over the families; the runtime's arithmetic helpers are proved equal to the Python helpers (run through pysym) on their whole argument domain.",
+        note="Interpreter-only: fidelity of the Go interpreter is validated only against the reference/Python on extreme values; fails closed on constructs outside its subset. `Smallest covering type` is checked only in the too-small direction.",
+        design="6/C19", engine="gosym",
+    ),
 }
 
 NOT_APPLICABLE = {
@@ -153,6 +160,7 @@ def main():
             "add_only": True,
         },
         "engines": [
+            {"name": "gosym", "path": "vlib/gosym.py", "serves_properties": ["C04", "C05", "C14", "C19"], "kind_free_text": "tree-walking interpreter for the Go subset of lib/go/bitproto.go and generated Go (typed values, wrap-around arithmetic as z3 bit-vectors, Go shift semantics, interface dispatch, defer); no Go toolchain exists here"},
             {"name": "llsym", "path": "vlib/llsym.py", "serves_properties": ["C03", "C04", "C05", "C06", "C07", "C12", "C14"], "kind_free_text": "symbolic interpreter for clang-14 textual LLVM IR (z3 bit-vectors, concrete pointers, bounds-checked regions, if-conversion, DART forking), x86-64 and s390x data layouts"},
             {"name": "pysym", "path": "vlib/pysym.py", "serves_properties": ["C01", "C02", "C05", "C07", "C08", "C09", "C11", "C12", "C13", "C14", "C17", "C20"], "kind_free_text": "DART-style symbolic execution of the real Python sources with z3 proxies (BV-192 / Int)"},
         ],
